@@ -336,6 +336,11 @@ CORPUS = [
     ("A o-2147483647 < c", "octave"), ("A o2147483647 >> c", "octave"), ("@M1 V0:1:1073741824\nA M1 o4 c", "boundary"), ("@M1 V0:1:2147483647\nA M1 o4 c", "boundary"),
     ("A o4 cdefg *40000 cdefg cdefg\n*40000 o4 cdefgab cdefgab cdefgab", "d3"), ("A o4 cdefg *65535 cdefg cdefg\n*65535 o4 cdefgab cdefgab cdefgab", "d3"),
     ("A o4 cdefg *32767 cdefg cdefg\n*32767 o4 cdefgab cdefgab cdefgab", "d3"),
+    # raw 'cmd' platform command: any MDSDRV event; loop end / loop break outside a loop (fix c5dd456: was top() of an empty stack)
+    ("A 'cmd 251 2' c", "raw-cmd"), ("A 'cmd 252 0' c", "raw-cmd"), ("A P100 c\n*100 'cmd 252 0' c", "raw-cmd"), ("A P100 c\n*100 'cmd 251 3' c", "raw-cmd"),
+    ("A [c 'cmd 252 0' d]2", "raw-cmd"), ("A 'cmd 250 0' c 'cmd 251 2'", "raw-cmd"), ("A 'cmd 250' c", "raw-cmd"), ("A 'cmd 245 0' c", "raw-cmd"), ("A 'cmd 255 0' c 'cmd 251 1'", "raw-cmd"),
+    ("A 'cmd 254 7' c", "raw-cmd"), ("A 'cmd 254 300' c", "raw-cmd"), ("A 'cmd 225 9' c", "raw-cmd"), ("A 'cmd 235 1' c", "raw-cmd"), ("A 'cmd' c", "raw-cmd"), ("A 'cmd x y' c", "raw-cmd"),
+    ("A 'cmd 253 1' c", "raw-cmd"), ("A 'cmd 232 4' c", "raw-cmd"), ("A 'cmd 240 2' c", "raw-cmd"), ("G 'cmd 251 2' c", "raw-cmd"), ("A *100\n*100 'cmd 251 2' c", "raw-cmd"),
     ("A t150 o4l4 @1 cdef\n" + FM_OK, "ordinary"), ("G o4l4 cdef\nH o3 l8 cdefgab\nJ c4 r4", "ordinary"), ("ABCDEF o4 l4 cdefg", "ordinary"),
 ]
 
@@ -498,7 +503,8 @@ def song_cases(rng, tier):
 ALPHABET = "abcdefghr^&o<>lQqR~Cs\\[]/L*'@_kKv()VpEMPGDtT{}|;%+-=.:,$x0123456789 \t\n#\"ABCGHIJKZ"
 CMDS = ["c", "d", "e", "f", "g", "a", "b", "h", "r", "^", "&", "o", "<", ">", "l", "Q", "q", "R", "~", "C", "s", "\\", "\\=", "[", "]", "/", "L", "*", "'", "@", "_", "__", "_{", "k", "K", "v",
         "(", ")", "V", "V+", "V-", "p", "E", "M", "P", "G", "D", "t", "T", "{", "}", "|", ";", "%", "+", "-", "=", ".", ":", ","]
-PLATFORM_CMDS = ["fm3 0011", "fm3 1111", "fm3", "lfo 1 2", "lfo", "lforate 3", "mode 1", "pcmmode 3", "pcmrate 4", "write 48 5", "write tl1 9", "write x", "tl1 +5", "tl3 40", "carry", "bogus", ""]
+PLATFORM_CMDS = ["fm3 0011", "fm3 1111", "fm3", "lfo 1 2", "lfo", "lforate 3", "mode 1", "pcmmode 3", "pcmrate 4", "write 48 5", "write tl1 9", "write x", "tl1 +5", "tl3 40", "carry", "bogus", "",
+                 "cmd 250 0", "cmd 251 2", "cmd 252 0", "cmd 254 1", "cmd 225 0", "cmd 245", "cmd"]
 
 
 def rnd_num(rng):
@@ -625,6 +631,36 @@ def agree(case, impl, model):
     if model.startswith("unmodelled@"):
         return impl == "ok" or (_stage_of(impl) is not None and _stage_of(impl) >= _stage_of(model))
     return False
+
+
+def model_notes(cases, impl, model):
+    """how much of the run the stage models cover: the model's answers by class, per format (the
+    `unmodelled@…` answers are the `Residual`s of Model/Pipeline; `skipped` the bounds of the model stream)"""
+    fmts = {"m": "mds", "v": "vgm", "l": "link"}
+    hist = {}
+    for c, m in zip(cases, model):
+        t = c.req.split(" ")
+        if t[0] not in ("total", "tool") or len(t) < 2:
+            continue
+        f = fmts.get(t[1][:1], "?")
+        k = re.sub(r"^(foreign@\w+):.*", r"\1", m)
+        k = m.split(":")[0] if m.startswith(("unmodelled@", "skipped", "foreign@")) else k
+        hist.setdefault(f, {})
+        hist[f][k] = hist[f].get(k, 0) + 1
+    out = []
+    for f in ("mds", "vgm", "link"):
+        h = hist.get(f, {})
+        tot = sum(h.values())
+        if not tot:
+            continue
+        un = sum(v for k, v in h.items() if k.startswith("unmodelled@"))
+        sk = sum(v for k, v in h.items() if k.startswith("skipped"))
+        reach = sum(v for k, v in h.items() if k in ("ok", "input_error@export", "input_error@link", "foreign@export", "foreign@link") or k.startswith("unmodelled@"))
+        full = sum(v for k, v in h.items() if k in ("ok", "input_error@export", "input_error@link"))
+        out.append("model answers, format %s: %d cases; %d reach the export stage, of these %d (%.1f%%) are answered by the stage models to the end "
+                   "(ok / input_error@export / input_error@link) and %d are `unmodelled@…`; skipped (stream bounds) %d; classes: %s"
+                   % (f, tot, reach, full, 100.0 * full / reach if reach else 0.0, un, sk, ", ".join("%s x%d" % kv for kv in sorted(h.items()))))
+    return out
 
 
 def outcome_class(ans):
